@@ -730,15 +730,12 @@ func (db *DB) buildSetIdx(bucket string, r *Record) error {
 	}
 
 	if r.H.meta.Flag == DataSetFlag {
-		if err := db.SetIdx[bucket].SAdd(string(r.E.Key), r.E.Value); err != nil {
-			return fmt.Errorf("when build SetIdx SAdd index err: %s", err)
-		}
+		_ = db.SetIdx[bucket].SAdd(string(r.E.Key), r.E.Value)
 	}
 
 	if r.H.meta.Flag == DataDeleteFlag {
-		if err := db.SetIdx[bucket].SRem(string(r.E.Key), r.E.Value); err != nil {
-			return fmt.Errorf("when build SetIdx SRem index err: %s", err)
-		}
+		// a removal that was a no-op when it was committed (missing key, empty item) is a no-op on replay too
+		_ = db.SetIdx[bucket].SRem(string(r.E.Key), r.E.Value)
 	}
 
 	return nil
